@@ -4,6 +4,7 @@ import (
 	"go/constant"
 	"go/token"
 	"go/types"
+	"strings"
 
 	"golang.org/x/tools/go/ssa"
 
@@ -82,70 +83,90 @@ func (c *Ctx) noNegativeIndex(rule string) {
 func (c *Ctx) headerOffsetsInRange(rule string) {
 	P, R := c.P, c.R
 	R.Explain(rule, "header entries stay inside the header: in rfc822.(*headerParser).next every value stored into parsedHeaderEntry.valueEnd / valueStart (the bounds with which the value is later sliced out of the header bytes) is proved <= len(hp.header) from the branch conditions on every path (linear-inequality entailment with a case split over the loop phis); copies of the entry's own keyStart/keyEnd are earlier offsets and are not judged, and the one store of the cursor hp.offset (prelude line, taken right after the line feed read at an index below the length) is tabled.  An offset that overshoots by one - the line break after a trailing '\\r' consumed without checking that a byte is left - slices one byte past the literal: a panic when the literal fills its buffer (APPEND), a stray byte of whatever follows otherwise.")
-	f := c.fn(rule, "rfc822.(*headerParser).next")
-	if f == nil {
+	if c.fn(rule, "rfc822.(*headerParser).next") == nil {
 		return
 	}
 	hdrFld := c.fieldOf("rfc822", "headerParser", "header")
-	// len(hp.header) values
-	var lens []ssa.Value
-	for _, b := range f.Blocks {
-		for _, in := range b.Instrs {
-			if call, ok := in.(*ssa.Call); ok {
-				if bi, ok := call.Call.Value.(*ssa.Builtin); ok && bi.Name() == "len" {
-					if ld, ok := call.Call.Args[0].(*ssa.UnOp); ok && fieldAddrIs(ld.X, hdrFld) {
-						lens = append(lens, call)
+	n, copies, tabled := 0, 0, 0
+	// next and whatever functions of the package it was split into: each is judged on its own branch conditions
+	for _, f := range c.funcsInPkg("rfc822") {
+		storesOffsets := false
+		if top := topFn(f); top.Signature.Recv() == nil || !strings.Contains(top.Signature.Recv().Type().String(), "headerParser") {
+			continue // only the parser's own methods read entries out of the header bytes (Header.Set, applyOffset edit existing ones)
+		}
+		for _, b := range f.Blocks {
+			for _, in := range b.Instrs {
+				if st, ok := in.(*ssa.Store); ok {
+					if fa, ok := st.Addr.(*ssa.FieldAddr); ok {
+						if fv := fieldOfAddr(fa); fv != nil && (fv.Name() == "valueEnd" || fv.Name() == "valueStart") && engine.IsNamed(fa.X.Type(), "rfc822", "parsedHeaderEntry") {
+							storesOffsets = true
+						}
 					}
 				}
 			}
 		}
-	}
-	if len(lens) == 0 {
-		R.Fail(rule, c.name(f)+"|len(header)", P.Pos(f.Pos()), "next no longer takes len(hp.header): the rule cannot be evaluated")
-		return
-	}
-	n, copies, tabled := 0, 0, 0
-	for _, b := range f.Blocks {
-		for _, in := range b.Instrs {
-			st, ok := in.(*ssa.Store)
-			if !ok {
-				continue
-			}
-			fa, ok := st.Addr.(*ssa.FieldAddr)
-			if !ok {
-				continue
-			}
-			fv := fieldOfAddr(fa)
-			if fv == nil || (fv.Name() != "valueEnd" && fv.Name() != "valueStart") || !engine.IsNamed(fa.X.Type(), "rfc822", "parsedHeaderEntry") {
-				continue
-			}
-			if k, isK := st.Val.(*ssa.Const); isK && k.Value != nil && k.Int64() <= 0 {
-				continue
-			}
-			// a copy of an earlier offset of the same entry (keyStart / keyEnd): offsets only grow while an entry is read
-			if ld, isLd := st.Val.(*ssa.UnOp); isLd {
-				if fa2, ok := ld.X.(*ssa.FieldAddr); ok && fa2.X == fa.X {
-					if f2 := fieldOfAddr(fa2); f2 != nil && (f2.Name() == "keyStart" || f2.Name() == "keyEnd") {
-						copies++
-						continue
-					}
-				}
-				// tabled: the parser's own cursor right after it consumed the '\n' it had just read at hp.offset < len
-				if fa2, ok := ld.X.(*ssa.FieldAddr); ok {
-					if f2 := fieldOfAddr(fa2); f2 != nil && f2.Name() == "offset" {
-						tabled++
-						continue
+		if !storesOffsets {
+			continue
+		}
+		// len(hp.header) values
+		var lens []ssa.Value
+		for _, b := range f.Blocks {
+			for _, in := range b.Instrs {
+				if call, ok := in.(*ssa.Call); ok {
+					if bi, ok := call.Call.Value.(*ssa.Builtin); ok && bi.Name() == "len" {
+						if ld, ok := call.Call.Args[0].(*ssa.UnOp); ok && fieldAddrIs(ld.X, hdrFld) {
+							lens = append(lens, call)
+						}
 					}
 				}
 			}
-			n++
-			ok2 := false
-			for _, l := range lens {
-				if st.Val == l || engine.ProveLEAt(f, b, st.Val, l) {
-					ok2 = true
+		}
+		if len(lens) == 0 {
+			R.Fail(rule, c.name(f)+"|len(header)", P.Pos(f.Pos()), "the function stores value offsets but never takes len(hp.header): the offsets cannot be bounded")
+			continue
+		}
+		for _, b := range f.Blocks {
+			for _, in := range b.Instrs {
+				st, ok := in.(*ssa.Store)
+				if !ok {
+					continue
 				}
+				fa, ok := st.Addr.(*ssa.FieldAddr)
+				if !ok {
+					continue
+				}
+				fv := fieldOfAddr(fa)
+				if fv == nil || (fv.Name() != "valueEnd" && fv.Name() != "valueStart") || !engine.IsNamed(fa.X.Type(), "rfc822", "parsedHeaderEntry") {
+					continue
+				}
+				if k, isK := st.Val.(*ssa.Const); isK && k.Value != nil && k.Int64() <= 0 {
+					continue
+				}
+				// a copy of an earlier offset of the same entry (keyStart / keyEnd): offsets only grow while an entry is read
+				if ld, isLd := st.Val.(*ssa.UnOp); isLd {
+					if fa2, ok := ld.X.(*ssa.FieldAddr); ok && fa2.X == fa.X {
+						if f2 := fieldOfAddr(fa2); f2 != nil && (f2.Name() == "keyStart" || f2.Name() == "keyEnd") {
+							copies++
+							continue
+						}
+					}
+					// tabled: the parser's own cursor right after it consumed the '\n' it had just read at hp.offset < len
+					if fa2, ok := ld.X.(*ssa.FieldAddr); ok {
+						if f2 := fieldOfAddr(fa2); f2 != nil && f2.Name() == "offset" {
+							tabled++
+							continue
+						}
+					}
+				}
+				n++
+				ok2 := false
+				for _, l := range lens {
+					if st.Val == l || engine.ProveLEAt(f, b, st.Val, l) {
+						ok2 = true
+					}
+				}
+				R.Check(ok2, rule, c.name(f)+"|"+fv.Name()+" <= len(header)|"+valExpr(st.Val, 0), P.Pos(st.Pos()), "offset proved within the header", "the offset stored in "+fv.Name()+" is not proved <= len(hp.header): the header value is later sliced past the end of the header bytes")
 			}
-			R.Check(ok2, rule, c.name(f)+"|"+fv.Name()+" <= len(header)|"+valExpr(st.Val, 0), P.Pos(st.Pos()), "offset proved within the header", "the offset stored in "+fv.Name()+" is not proved <= len(hp.header): the header value is later sliced past the end of the header bytes")
 		}
 	}
 	R.Stats[rule+" copies of keyStart/keyEnd (not judged)"] = copies
